@@ -500,7 +500,9 @@ func VH_C02_final_keys_are_direction_separated() {
 //verif:bounds datagram of symbolic length 0..1700 inside the 65535-byte receive buffer, type byte fully symbolic, certificate-length field from {0,12,255}, all other bytes symbolic; discoverable or hidden server with 1..2 certificates (with/without KEM key); one pending handshake (another address) and one session; all crypto outputs fresh (an unauthenticated sender may be lucky)
 //verif:cover returned
 //verif:timeout 900
-func VH_C10_server_readpacket_any_datagram() {
+func VH_C10_server_readpacket_any_datagram() { c10ReadPacket(1700) }
+
+func c10ReadPacket(maxLen int) {
 	hsReset()
 	hsAvoidSIDs = nil
 	hidden := verifBool("hidden-mode")
@@ -527,8 +529,8 @@ func VH_C10_server_readpacket_any_datagram() {
 	hsAvoidSID = ss.sessionID
 	hsAvoidSIDs = [][4]byte{otherHS.sessionID}
 	n := verifInt("datagram-len")
-	verifAssume(n >= 0 && n <= 1700)
-	u.in = verifBytes("datagram", 1700)
+	verifAssume(n >= 0 && n <= maxLen)
+	u.in = verifBytes("datagram", maxLen)
 	u.inLen = n
 	u.inAddr = sessAddr4(10, 0, 0, 1, 4000)
 	u.in[2] = 0
@@ -636,3 +638,12 @@ func VH_C02_server_never_completes_a_short_clientauth_from_stale_buffer_bytes() 
 		verifCover("whole-rejected")
 	}
 }
+
+//verif:prop C10
+//verif:replay none
+//verif:tier thorough
+//verif:stub crypto/rand.Read = hsRandRead
+//verif:bounds as VH_C10_server_readpacket_any_datagram with datagram length symbolic 0..65535 (the whole receive buffer)
+//verif:cover returned
+//verif:timeout 3000
+func VH_C10_server_readpacket_any_datagram_up_to_64k() { c10ReadPacket(65535) }
